@@ -15,7 +15,7 @@ func init() {
 		id: "C09",
 		li: levelInfo{
 			Level:       "other",
-			Explanation: "Static lifecycle rules. R1: for every component whose Stop/Close blocks on a done latch, the function that closes the latch closes it on every return path. R2: inside the goroutines of listener, session, backend connection, upstream and the two procs every blocking channel operation is guarded (select with a quit latch), a join on a lifecycle latch, or bounded by a timer. R3 (lockset analysis): listener.conns and listener.ln are accessed only under listener.mu, or before the object is shared, or (ln, written once) in code that runs only after the write; the assignment of ln is followed by a re-test of quit/drain that closes the socket. R4: nothing reachable from Drain touches the registry or the quit latch. R5: limit test and insertion are in one critical section and the admission predicate is right over the orderings of len vs limit. R6: Stop closes the listener and every connection of the snapshot taken under the lock, marks the registry stopped in the same critical section, then joins. R7: no lock -> latch wait-for cycle: at every call that joins a lifecycle latch, no lock of the must-hold lockset is acquired anywhere in the code the joined goroutines run before the latch closes (a quit test in front of such an acquisition is not accepted: test-then-lock is not atomic). R4 also requires that Drain closes the drain latch whether or not the port is bound (shared with C17.R6). Wall-clock bounds and goroutine counts are not decided. R8: every quit latch that guards blocking operations has a closer that does not itself wait on it, is called from outside the component and not only on its creation path. The publication of the socket may sit in a helper that performs it on every path: everything dominated by its single call site counts as after the write. R9 (stop order): at every join of a component lifecycle latch, each blocking select of the goroutines the join waits for (the closer's own code and the goroutines it waits for through a WaitGroup) watches a latch that is closed by then - by the stop function before the join, by a component it has already stopped and joined, or by the joined call itself - or a timer; a select that offers a data channel and watches only a latch closed later in the stop sequence is reported. This is a sufficient condition: a design that relies on the data channel making progress instead of a latch is reported too. R10: the terminal sweep of the backend connections ranges over a snapshot read under the table mutex (E-lock), and a single address is deleted from the connection table only by the goroutine that ran that connection. R11: the drain latch is read by the binding and accepting code only, never per accepted connection. R12 (shared with C05.R7): no goroutine started in a loop captures the loop variable. R13: a component field (Start/Stop) of a component is overwritten only when nil or after the old value was stopped. R9 follows goroutines the closer waits for and counts what the closer closes before its Wait. R10 also: (c) when a connection's goroutines can reach the Send of the connection type, the terminal sweep asks every connection of the snapshot to quit before it waits for the first; (d) a connection is registered only on the miss side of a comma-ok lookup of the same address under the table mutex. R14: the goroutine a Start method runs for its listener calls Serve on every path.",
+			Explanation: "Static lifecycle rules. R1: for every component whose Stop/Close blocks on a done latch, the function that closes the latch closes it on every return path. R2: inside the goroutines of listener, session, backend connection, upstream and the two procs every blocking channel operation is guarded (select with a quit latch), a join on a lifecycle latch, or bounded by a timer. R3 (lockset analysis): listener.conns and listener.ln are accessed only under listener.mu, or before the object is shared, or (ln, written once) in code that runs only after the write; the assignment of ln is followed by a re-test of quit/drain that closes the socket. R4: nothing reachable from Drain touches the registry or the quit latch. R5: limit test and insertion are in one critical section and the admission predicate is right over the orderings of len vs limit. R6: Stop closes the listener and every connection of the snapshot taken under the lock, marks the registry stopped in the same critical section, then joins. R7: no lock -> latch wait-for cycle: at every call that joins a lifecycle latch, no lock of the must-hold lockset is acquired anywhere in the code the joined goroutines run before the latch closes (a quit test in front of such an acquisition is not accepted: test-then-lock is not atomic). R4 also requires that Drain closes the drain latch whether or not the port is bound (shared with C17.R6). Wall-clock bounds and goroutine counts are not decided. R8: every quit latch that guards blocking operations has a closer that does not itself wait on it, is called from outside the component and not only on its creation path. The publication of the socket may sit in a helper that performs it on every path: everything dominated by its single call site counts as after the write. R9 (stop order): at every join of a component lifecycle latch, each blocking select of the goroutines the join waits for (the closer's own code and the goroutines it waits for through a WaitGroup) watches a latch that is closed by then - by the stop function before the join, by a component it has already stopped and joined, or by the joined call itself - or a timer; a select that offers a data channel and watches only a latch closed later in the stop sequence is reported. This is a sufficient condition: a design that relies on the data channel making progress instead of a latch is reported too. R10: the terminal sweep of the backend connections ranges over a snapshot read under the table mutex (E-lock), and a single address is deleted from the connection table only by the goroutine that ran that connection. R11: the drain latch is read by the binding and accepting code only, never per accepted connection. R12 (shared with C05.R7): no goroutine started in a loop captures the loop variable. R13: a component field (Start/Stop) of a component is overwritten only when nil or after the old value was stopped. R9 follows goroutines the closer waits for and counts what the closer closes before its Wait. R10 also: (c) when a connection's goroutines can reach the Send of the connection type, the terminal sweep asks every connection of the snapshot to quit before it waits for the first; (d) a connection is registered only on the miss side of a comma-ok lookup of the same address under the table mutex. R14: the goroutine a Start method runs for its listener calls Serve on every path. R6 also: every path of listener.Stop from the stopped mark reaches the join; the backend connection's Stop closes the socket itself on every path to its wait.",
 			TrustedBase: []string{"go/ssa", "VTA call graph", "samlint elock.go, echan.go, zone.go"},
 		},
 		run: checkC09,
